@@ -114,6 +114,8 @@ AltCtx(f) ==
                            \cup {<<"ctx.sub", [f EXCEPT !.sub = n]>> : n \in FragNo \ {f.sub}}
     [] f.fam = "log"    -> {<<"ctx.sub", [f EXCEPT !.sub = n]>> : n \in LogIdx \ {f.sub}}
     [] f.fam = "msg"    -> {<<"ctx.sub", [f EXCEPT !.sub = m]>> : m \in MsgId \ {f.sub}}
+    [] f.fam = "none" /\ f.code \notin Idx0Free /\ f.idx = "" /\ f.verb \in {RQ, RP}
+                        -> {<<"ctx.idx", [f EXCEPT !.idx = j]>> : j \in {"01", "21"}}    \* an index where none belongs
     [] OTHER            -> {}
 
 (* bound the context alternatives per case: at most two per component (all of them when Deep and small) *)
